@@ -872,7 +872,13 @@ Definition symptom (o : fobs) : string :=
 
 Definition mem (s : string) (l : list string) : bool := existsb (String.eqb s) l.
 
-(* ---- comparison (1)+(2): a program of the modelled subset *)
+(* ---- comparison (1)+(2): a program of the modelled subset.
+   The formatter's text must be the canonical text (then the round trip must succeed: binding `ok`), or — inside a
+   defect class — exactly the text the model of formatter.rs predicts (then a failed round trip is the known finding).
+   Accepting the canonical text also inside the classes keeps the check valid once formatter.rs is repaired. *)
+Definition lex_class_of (p : prog) : option string :=
+  if exists_prog c_commaswizzle p then Some "comma-swizzle" else None.
+
 Definition judge_prog (p : prog) (o : obs8) : sx :=
   let ti := fmt_prog true p in
   let tc := fmt_prog false p in
@@ -880,16 +886,21 @@ Definition judge_prog (p : prog) (o : obs8) : sx :=
   | O8Skip => v_adv "source-does-not-parse"
   | O8Other => v_bad "unreadable-observation" (Ax "fmt")
   | O8FmtPanic _ =>
-      if existsb is_panic ti then v_kf "matrix-jagged-panic" else v_bad "unexpected-format-panic" (Qx (render ti))
+      if existsb is_panic ti then v_kf "matrix-jagged-panic" else v_bad "unexpected-format-panic" (Qx (render tc))
   | O8Fmt ob =>
-      if existsb is_panic ti then v_bad "expected-format-panic" (Ax "fmt-panic")
-      else if negb (String.eqb (o_text ob) (render ti)) then v_bad "text-differs-from-model" (Qx (render ti))
-      else if all_good ob then
-        (if String.eqb (render ti) (render tc) then v_ok "roundtrip" else v_ok "roundtrip-other-text")
-      else match class_of p with
-           | Some id => v_kf id
-           | None => v_bad "roundtrip-failed" (Qx (symptom ob))
-           end
+      if String.eqb (o_text ob) (render tc) then
+        (if all_good ob then v_ok "roundtrip"
+         else match lex_class_of p with
+              | Some id => v_kf id
+              | None => v_bad "roundtrip-failed" (Qx (symptom ob))
+              end)
+      else if negb (existsb is_panic ti) && String.eqb (o_text ob) (render ti) then
+        (if all_good ob then v_ok "roundtrip-other-text"
+         else match class_of p with
+              | Some id => v_kf id
+              | None => v_bad "unclassified-defect" (Qx (render tc))
+              end)
+      else v_bad "text-differs-from-model" (Qx (render (if existsb is_panic ti then tc else ti)))
   end.
 
 (* ---- comparison (2) only: any program; the class is decided from the features of the implementation's own tree *)
